@@ -569,7 +569,7 @@ def generate(rng, tier):
         if r in (0, 1, 2):
             cases.append({"kind": "sched", "sched": _sc.gen_pull_ring(rng)})
         elif r == 3:
-            cases.append({"kind": "sched", "sched": _sc.gen_relay2(rng)})
+            cases.append({"kind": "sched", "sched": (_sc.gen_relay2 if i % 12 == 3 else _sc.gen_relay_twice)(rng)})
         else:
             c = _sc.gen_dag(rng)
             if any(x["kind"] == "P" for x in c["comps"]):
